@@ -48,6 +48,8 @@ impl Interpreter {
                     return Err(InterpreterError::TooLongForBool);
                 }
                 let predicate = self.state.stack.pop_bool()?;
+                // OP_NOTIF executes its body when the value is false
+                let predicate = if *code == OpCodes::OP_NOTIF { !predicate } else { predicate };
                 self.state.executed_opcodes.push(*code);
 
                 if predicate {
